@@ -208,6 +208,34 @@ def _with(t, key, val):
 from .rat import Interval, INF, rat_sign, in_span, solve_combination  # noqa: E402
 
 
+def _floor_args(db, index, helper):
+    """arguments of a floor helper as its one call site in run_optimizations_on_constraints gives them: (model, variables) plus whatever
+    else the call passes (e.g. a floor value computed by the caller), each evaluated from the caller's own definitions with `model`
+    standing for the model just solved"""
+    from .core import Inliner, bind_args, walk_no_nested, dotted
+    caller = db.method("run_optimizations_on_constraints")
+    callee = db.method(helper)
+    sites = [c for c in walk_no_nested(caller) if isinstance(c, ast.Call) and dotted(c.func) == "self." + helper]
+    if len(sites) != 1:
+        raise symx.Unsupported(f"run_optimizations_on_constraints: expected one call of {helper}", caller)
+    inl = Inliner(caller).at(sites[0])
+    bound = bind_args(sites[0], callee)
+    params = [a.arg for a in callee.args.args][1:]
+
+    def argfn(it, obj, model, vd, month):
+        env = {"model": model, "variables": vd, "self": obj}
+        for p_ in [a.arg for a in caller.args.args][1:]:
+            env.setdefault(p_, Path((p_,)))
+        args = [model, vd]
+        kwargs = {}
+        for p_ in params[2:]:
+            if p_ in bound:
+                kwargs[p_] = it.eval(inl.expr(bound[p_]), env)
+        return args, kwargs
+
+    return argfn
+
+
 def build_all(index):
     db = LPDB(index)
     for flag in db.resources:
@@ -226,14 +254,9 @@ def build_all(index):
         "add_maximize_sum_total_feed_used_by_animals", "to_animals",
         lambda it, obj, model, vd, month: ([model, vd, Rat.atom(NSYM)], {}), month_param=False,
     )
-    db.extract_method(
-        "constrain_next_optimization_to_have_same_minimum_starvation", "to_humans",
-        lambda it, obj, model, vd, month: ([model, vd], {}), month_param=False,
-    )
-    db.extract_method(
-        "constrain_next_optimization_to_have_same_feed_biofuel", "to_animals",
-        lambda it, obj, model, vd, month: ([model, vd], {}), month_param=False,
-    )
+    for floor_helper, opt in (("constrain_next_optimization_to_have_same_minimum_starvation", "to_humans"),
+                              ("constrain_next_optimization_to_have_same_feed_biofuel", "to_animals")):
+        db.extract_method(floor_helper, opt, _floor_args(db, index, floor_helper), month_param=False)
     return db
 
 
